@@ -11,11 +11,16 @@ get_horizontal_overlap, is_horizontally_overlapping, PageXMLTextRegion.__lt__, g
 Lines are boxes with ids.  Coordinates of columns are carried as bounding boxes: every consumer
 here reads only left/right/width/x/y/w/h, and `parse_derived_coords` is the convex hull of all
 corner points, whose bounding box is the union of the input boxes (C09 contract; since fc690f6
-collinear point sets give the segment between their extremes instead of a QhullError).  The overlap threshold 0.5 is the rational
-1/2 (`overlap * 2 > width`).
+collinear point sets give the segment between their extremes instead of a QhullError).  Thresholds are rationals
+`(p, q)` compared by cross-multiplication (`overlap / width > p/q` is `overlap * q > p * width`).
+The numeric literals and defaults of the source (default gap threshold / overlap threshold / minimum column width,
+the `2` of `max(gap_threshold, 2)`, the `min_column_width=0` of the recursive call and the `0` of its guard, the
+threshold with which `is_horizontally_overlapping` is reached) are NOT written here: they are `Generated.C18.*`,
+regenerated from the working tree on every run (harness/props/c18.py `translate`).
 -/
 import PagexmlModel.Basic.Err
 import PagexmlModel.Basic.PyInt
+import PagexmlModel.Generated.C18
 
 namespace Pagexml.C18
 
@@ -150,11 +155,15 @@ def pixels : List Line → List Int
 
 /-! ### determine_freq_gap_interval -/
 
+/-- `N` of `max(gap_threshold, N)`: the smallest distance of two covered pixels that can be a gap
+    (regenerated; 2 at the time of writing: adjacent pixels are never a gap, aca4ff5) -/
+def gapMin : Int := Generated.C18.minGapPixels
+
 /-- the loop over adjacent pixels; `(s, e)` is `curr_interval`, `e` is also `curr_pixel`;
-    `next_pixel - curr_pixel < max(gap_threshold, 2)`: adjacent pixels are never a gap (aca4ff5) -/
+    `next_pixel - curr_pixel < max(gap_threshold, N)` -/
 def gapGo (thr : Int) (s e : Int) : List Int → List (Int × Int)
   | [] => [(s, e)]
-  | p :: ps => if p - e < max thr 2 then gapGo thr s p ps else (s, e) :: gapGo thr p p ps
+  | p :: ps => if p - e < max thr gapMin then gapGo thr s p ps else (s, e) :: gapGo thr p p ps
 
 def gapIntervals (thr : Int) : List Int → List (Int × Int)
   | [] => []
@@ -166,12 +175,16 @@ def columnRanges (thr mcw : Int) (lines : List Line) : List (Int × Int) :=
 
 /-! ### within_column / sort_lines_in_column_ranges -/
 
-/-- `overlap / width > 0.5` for a line of non-zero (hence positive) width -/
+/-- `a / d > p/q` for `d > 0`, `q > 0` (`r = (p, q)`), by cross-multiplication -/
+def ratioGt (a d : Int) (r : Int × Int) : Bool := decide (a * r.2 > r.1 * d)
+
+/-- `overlap / width > overlap_threshold` for a line of non-zero (hence positive) width; the threshold is
+    the default of split_lines_on_column_gaps (the harness never passes another one) -/
 def withinCol (l : Line) (ρ : Int × Int) : Bool :=
   let start := max l.box.l ρ.1
   let en := min l.box.r ρ.2
   let overlap := if en > start then en - start else 0
-  overlap * 2 > l.box.width
+  ratioGt overlap l.box.width Generated.C18.withinThr
 
 /-- the inner loop body: zero-width lines are skipped (`continue`) -/
 def hit (l : Line) (ρ : Int × Int) : Bool := l.box.width != 0 && withinCol l ρ
@@ -206,7 +219,7 @@ def isHOverlapping (a b : Box) : Bool :=
   if a.width = 0 ∧ b.width = 0 then false
   else if a.width = 0 then b.l ≤ a.l && a.l ≤ b.r
   else if b.width = 0 then a.l ≤ b.l && b.l ≤ a.r
-  else hOverlap a b * 2 > min a.width b.width
+  else ratioGt (hOverlap a b) (min a.width b.width) Generated.C18.colHOverlapThr
 
 def colLt (a b : Col) : Bool :=
   if isHOverlapping a.box b.box then a.box.t < b.box.t else a.box.l < b.box.l
@@ -293,8 +306,14 @@ def reId (g : RegInfo) (cols : List Col) : List Col :=
 def extraReg (g : RegInfo) (eb : Box) : RegInfo :=
   ⟨PyId.derived g.base "text_region" eb, if g.parentHasId then g.parent else none⟩
 
+/-- `N` of the guard `if min_column_width > N:` around the recursive call (regenerated) -/
+def recGuard : Int := Generated.C18.recGuard
+/-- the `min_column_width` that the recursive call passes (regenerated) -/
+def recMcw : Int := Generated.C18.recMinColumnWidth
+
 /-- handle_extra_lines; `recSplit` is the recursive call
-    `split_lines_on_column_gaps(extra, gap_threshold=gap_threshold, min_column_width=0)` -/
+    `split_lines_on_column_gaps(extra, gap_threshold=gap_threshold, min_column_width=M)` under the guard
+    `if min_column_width > N:` (`M = recMcw`, `N = recGuard`, both 0 at the time of writing) -/
 def handleExtra (recSplit : RegInfo → List Line → Res (List Col))
     (g : RegInfo) (cols : List Col) (extra : List Line) (mcw : Int) : Res (List Col) := do
   let (cols, nonCol) ← placeAll g extra cols []
@@ -304,7 +323,7 @@ def handleExtra (recSplit : RegInfo → List Line → Res (List Col))
     | .error _ => .error .ValueError        -- `except BaseException: raise ValueError`
   let eg := extraReg g eb
   let extraCols ←
-    if mcw > 0 then recSplit eg nonCol
+    if mcw > recGuard then recSplit eg nonCol
     else do
       let b ← hullBox nonCol                -- make_derived_column(extra_lines, …, extra.id)
       pure [⟨nonCol, b, PyId.derived eg.id "column" b⟩]
@@ -318,10 +337,15 @@ def split : Nat → Int → Int → RegInfo → List Line → Res (List Col)
     let ranges := columnRanges thr mcw lines
     let cols0 ← makeRangeCols g (colLines lines ranges)
     let cols ← mergeOverlapping cols0
-    handleExtra (split fuel thr 0) g cols (extraLines lines ranges) mcw
+    handleExtra (split fuel thr recMcw) g cols (extraLines lines ranges) mcw
 
 /-- the default fuel used by the driver; `C18_terminates` shows that 2 already suffices -/
 def splitRegion (thr mcw : Int) (g : RegInfo) (r : Region) : Res (List Col) :=
   split 2 thr mcw g r.getLines
+
+/-- `split_lines_on_column_gaps(region[, gap_threshold][, min_column_width])`: an argument that is not
+    passed takes the default the source declares -/
+def splitRegionDefaults (thr mcw : Option Int) (g : RegInfo) (r : Region) : Res (List Col) :=
+  splitRegion (thr.getD Generated.C18.defaultGapThreshold) (mcw.getD Generated.C18.defaultMinColumnWidth) g r
 
 end Pagexml.C18
